@@ -194,6 +194,7 @@ class Zeroconf(QuietLogger):
         self.record_manager = RecordManager(self)
 
         self._notify_futures: Set[asyncio.Future] = set()
+        self._goodbye_tasks: Set[asyncio.Future] = set()
         self.loop: Optional[asyncio.AbstractEventLoop] = None
         self._loop_thread: Optional[threading.Thread] = None
 
@@ -489,9 +490,13 @@ class Zeroconf(QuietLogger):
             withdrawn.extend(info.get_address_and_nsec_records())
         self.out_queue.async_remove_records(withdrawn)
         self.out_delay_queue.async_remove_records(withdrawn)
-        return asyncio.ensure_future(
+        goodbye = asyncio.ensure_future(
             self._async_broadcast_service(info, _UNREGISTER_TIME, 0, broadcast_addresses)
         )
+        # A shutdown lets the goodbyes that are still going out finish
+        self._goodbye_tasks.add(goodbye)
+        goodbye.add_done_callback(self._goodbye_tasks.discard)
+        return goodbye
 
     def generate_unregister_all_services(self) -> Optional[DNSOutgoing]:
         """Generate a DNSOutgoing goodbye for all services and remove them from the registry."""
@@ -516,6 +521,10 @@ class Zeroconf(QuietLogger):
         method does not return a future and is always expected to be
         awaited since its only called at shutdown.
         """
+        # The goodbyes of services that were unregistered just before are still
+        # going out, they would be cut short when the instance is marked done
+        if self._goodbye_tasks:
+            await asyncio.wait(self._goodbye_tasks)
         # Send Goodbye packets https://datatracker.ietf.org/doc/html/rfc6762#section-10.1
         # A registration that finishes probing while the goodbyes are going out
         # is announced, keep going until there is nothing left to withdraw
